@@ -155,6 +155,15 @@ def _atomic_multi(text, problem):
 KNOWN_CLASSES["atomic_specifier_multi_declarator"] = _atomic_multi
 
 
+def _adjacent_prefixed_strings(text, problem):
+    """two adjacent string literals of which the second has a 2-character prefix (u8) - the only prefixed
+    concatenation that goes wrong: value[2:] drops `u8` but the first literal's closing quote stays"""
+    return re.search(r'(?:u8|u|U|L)"(?:[^"\\\n]|\\.)*"\s*u8"', text) is not None
+
+
+KNOWN_CLASSES["adjacent_prefixed_strings"] = _adjacent_prefixed_strings
+
+
 def known_class(name):
     def deco(fn):
         KNOWN_CLASSES[name] = fn
